@@ -77,6 +77,16 @@ def generate(seed, tier):
                     if all(v is None or 0 <= v <= clen for v in lib.full_coords(g)):
                         frags.append(g)
                     break
+    if method == 'chic' and frags and w.random() < 0.3:
+        # MNase cuts in front of the first bases of a contig: forward fragments whose read 1 starts on base 0, 1 and 2 (cut sites -2, -1, 0), same cell
+        # and UMI - three different molecules
+        t = dict(w.choice(frags))
+        umi = lib.umi_pool(w, 1, len(t['umi']))[0]
+        for j, site in enumerate(w.sample([-2, -1, 0], w.randint(2, 3))):
+            g = dict(t, n=1000 + len(frags) + 700 + j, site=site, rev=False, umi=umi, defect=None, clip=0, extra=None, mol=60000 + len(frags) + j, L=w.randint(t['rl'], max(t['rl'], min(200, genome[t['ctg']][1] // 3))))
+            g.pop('dup', None)
+            g.pop('r2cig', None)
+            frags.append(g)
     preflag = w.random() < 0.5
     if preflag:
         for f in frags:
@@ -91,6 +101,8 @@ def generate(seed, tier):
     api.append({'k': 0, 'radius': w.choice([0, 2, 3]) if method == 'chic' else 0, 'pooling': 1, 'cap': None, 'eject': [w.choice([0, 1, 3, 7]), 1000]})
     api.append({'k': 0, 'radius': 0, 'pooling': w.choice([0, 1]), 'cap': None, 'eject': [w.choice([0, 2, 5]), 1000]})
     api.append({'k': 0, 'radius': 0, 'pooling': w.choice([0, 1]), 'cap': None, 'reiterate': True})
+    # a capped run with the buffer actually ejecting: a full molecule must stay buffered as long as its class can still receive copies
+    api.append({'k': 0, 'radius': 0, 'pooling': w.choice([0, 1]), 'cap': w.choice([1, 2, 3]), 'eject': [w.choice([0, 1, 3]), 1000]})
     s = st.schedule
     nlife = weighted(s, [(1, 2), (2, 4), (3, 3)])
     chain = []
